@@ -690,6 +690,9 @@ func main() {
 			if f := os.Getenv("C16_ONLY_FAMILY"); f != "" && scn.Family(all[i].Name) != f {
 				continue
 			}
+			if f := os.Getenv("C16_ONLY_SCN"); f != "" && !regexp.MustCompile(f).MatchString(all[i].Name) {
+				continue
+			}
 			items = append(items, workItem{fib, i})
 		}
 	}
@@ -800,7 +803,7 @@ func main() {
 		"rule":        "for each of the 2- and 3-thread scenarios (all pairs over 16 thread programs colliding on /a, /a/b and faces 1,2, plus selected triples; family B: the same from a state with leftovers of earlier removals; family C: strategy choices re-pointed/unset/re-created on prefixes that already have one, incl. the default on /, against strategy and next-hop lookups; family D: faces that really are in the face table and the dispatch table and own routes, torn down through the real face.Table.Remove and the real faces/destroy handler - also twice, by two threads - against the real rib/register, rib/unregister, fib/add-nexthop, fib/remove-nexthop handlers of the management thread (explicit FaceId: guarded by the face's existence; no FaceId: the arrival face), lookups and face-table / dispatch-table probes, incl. a lookup and a probe issued by the thread whose teardown has just returned) x {tree, hashtable FIB}: every schedule with at most the stated number of preemptions, scheduling points at every sync operation of fw/table and between obtaining and consuming a lookup result; each complete execution checked for crash, deadlock, linearizability against the same implementation run sequentially (brute force over all program-order- and real-time-consistent orders), torn results and final-state equivalence; every value a lookup returned is kept by reference with a deep snapshot taken at the return and read again after the lookup thread's next scheduling point, after every completed operation and after all threads finished (a difference = the returned list/name was rewritten under its holder: C16.torn)",
 		"explanation": "states/transitions = scheduling points visited; every schedule is an execution of the real code under the controlled scheduler",
 	}
-	if os.Getenv("C16_ONLY_FAMILY") == "" {
+	if os.Getenv("C16_ONLY_FAMILY") == "" && os.Getenv("C16_ONLY_SCN") == "" {
 		racePass(rep, cov, raceBudget, deadlocked)
 	}
 	rep.Finish(cov, []string{
